@@ -226,6 +226,14 @@ class Impl:
         x, g, v = self.o[f].fixed_point(); self.o[xn] = x; self.o[vn] = v; return "ok"
     def op_fn_smul(self, n, c, a): self.o[n] = self.R(c) * self.o[a]; return "ok"
     def op_fn_div(self, n, a, c): self.o[n] = self.o[a] / self.R(c); return "ok"
+    def _spec(self, f):
+        """what the REAL example built: samples recorded on the function, constraints and metrics declared on the problem"""
+        sm = ";".join(pd(x) + "|" + pd(g) + "|" + ed(v) for (x, g, v) in self.o[f].list_of_points)
+        ini = ";".join(("eq" if c.equality_or_inequality == "equality" else "le") + "|" + ed(c.expression) for c in self.pep.list_of_constraints)
+        me = ";".join(ed(m) for m in self.pep.list_of_performance_metrics)
+        return "samples=[%s] init=[%s] metrics=[%s]" % (sm, ini, me)
+    def op_spec_gdc(self, f, *a): return self._spec(f)
+    def op_spec_subg(self, f, *a): return self._spec(f)
     def op_note(self, *a): return "ok"
     def op_trace_error(self, *a): return "ok TRACE-ERROR (the example raised while it was building its model): " + " ".join(a)
     def op_expect_sent(self, h):
@@ -898,18 +906,45 @@ def example_calls():
     return _EX_CALLS
 
 
-def gen_examples(seed):
-    """a REAL program: the operations a shipped example performs on the library (traced at run time, harness/extrace.py),
-    then the collection, a dump of what is sent, and the comparison with what the example's own run sent"""
+def example_program(c):
+    """the operations a shipped example performs (traced at run time, harness/extrace.py), then the collection, a dump of
+    what is sent, and the comparison with what the example's own run sent"""
     import extrace, hashlib
-    calls = example_calls()
-    c = calls[(seed * 7919) % len(calls)]
     r = extrace.trace(c["module"], c["func"], c["args"])
     head = "note %s %s" % (c["func"], json.dumps(c["args"], sort_keys=True).replace(" ", ""))
     if r["error"]:
         if r["error"].startswith("untraceable"): return ["reset", head, "note " + r["error"].replace(" ", "_")[:150]]
         return ["reset", head, "trace.error " + r["error"].replace(" ", "_")[:200]]
-    return r["lines"] + [head, "solve.collect", "dump.sent", "expect.sent " + hashlib.sha1(r["sent"].encode()).hexdigest()[:20], "dump.counters"]
+    # for some families the whole user-level model is also written in Lean as a closed-form function of the parameters
+    # (Model/Methods.lean); the objects the real example built are compared with it
+    spec = []
+    fr = lambda v: showrat(Fr(v)) if isinstance(v, int) else showrat(Fr(float(v)))
+    if c["func"] == "wc_gradient_descent_contraction": spec = ["spec.gdc f0 %s %d" % (fr(c["args"]["gamma"]), c["args"]["n"])]
+    if c["func"] == "wc_subgradient_method": spec = ["spec.subg f0 %s %d" % (fr(c["args"]["gamma"]), c["args"]["n"])]
+    return r["lines"] + spec + [head, "solve.collect", "dump.sent", "expect.sent " + hashlib.sha1(r["sent"].encode()).hexdigest()[:20], "dump.counters"]
+
+
+def gen_examples(seed):
+    """a REAL program: one of the 386 parameter tuples of the shipped examples"""
+    calls = example_calls()
+    return example_program(calls[(seed * 7919) % len(calls)])
+
+
+def gen_methods(seed):
+    """the examples whose whole user-level model is specified in Lean (Model/Methods.lean), at parameter values drawn over
+    the documented ranges (no solve is involved, so any number of steps is cheap)"""
+    rnd = random.Random(seed * 104729 + 11)
+    if seed % 2 == 0:
+        L = rnd.choice([1, 2, 0.5, 1.7, 4]); mu = rnd.choice([0.1, 0.05, 0.25, 0.5]) * L
+        gamma = rnd.choice([1 / L, 0.5 / L, 1.5 / L, 2 / (L + mu), 0.3, 1, 0.25])
+        c = dict(module="PEPit.examples.tutorials.gradient_descent_contraction", func="wc_gradient_descent_contraction",
+                 args=dict(L=L, mu=mu, gamma=gamma, n=rnd.randint(1, 7)))
+    else:
+        n = rnd.randint(1, 8); M = rnd.choice([2, 1, 0.5, 3])
+        gamma = rnd.choice([1 / (M * (n + 1) ** .5), 0.25, 1, 0.5, 1 / M])
+        c = dict(module="PEPit.examples.unconstrained_convex_minimization.subgradient_method", func="wc_subgradient_method",
+                 args=dict(M=M, n=n, gamma=gamma))
+    return example_program(c)
 
 
 def _exact_double(fr):
@@ -1024,7 +1059,7 @@ def run_stream(gen, n, seed0=0):
     return run_programs([(seed, gen(seed)) for seed in range(seed0, seed0 + n)])
 
 
-GENS = dict(examples=gen_examples, tree=gen_tree, cls=gen_class, collect=gen_collect, steps=gen_steps, resolve=gen_resolve, oracle=gen_oracle)
+GENS = dict(examples=gen_examples, methods=gen_methods, tree=gen_tree, cls=gen_class, collect=gen_collect, steps=gen_steps, resolve=gen_resolve, oracle=gen_oracle)
 
 
 def report(which, n, seed0):
